@@ -664,7 +664,7 @@ func busGen(c *ctx) {
 	// Part C: timer phases.  The timer registers are written in every phase of the overflow / reload sequence (the
 	// cycle of the overflow, the cycle(s) TIMA reads 00, the reload cycle, the cycle after), each write between two
 	// full snapshots and followed by one more after the next timer tick.
-	nPhase := 400
+	nPhase := 800
 	if c.thorough() {
 		nPhase = 6000
 	}
@@ -694,7 +694,11 @@ func busGen(c *ctx) {
 		}
 		x.do("snap")
 		a := []int{0xff06, 0xff06, 0xff05, 0xff04, 0xff07}[r.intn(5)]
-		x.do(fmt.Sprintf("w %04x %02x", a, 1+r.intn(255)))
+		v := 1 + r.intn(255)
+		if r.chance(30) {
+			v = []int{0x00, 0x00, 0xff, 0x01}[r.intn(4)] // incl. the value TIMA shows in the zero cycle
+		}
+		x.do(fmt.Sprintf("w %04x %02x", a, v))
 		x.do("snap")
 		x.do("tt")
 		x.do("snap")
